@@ -19,11 +19,13 @@ func VerifStreamErrors() {
 	L := 1 + zzverif.Choose("L", 4)
 	d := zzverif.Bytes("data", L)
 	at := zzverif.Choose("fail_at", L) // strictly inside the data: the source never reports a clean end
-	s := &vSrc{data: d, eofWithData: zzverif.Bool("eofWithData"), maxZero: 1, failAt: at, failErr: vErrSrc}
+	s := &vSrc{data: d, eofWithData: zzverif.Bool("eofWithData"), maxZero: 1, failAt: at, failErr: vErrSrc,
+		errWithData: zzverif.Bool("error_comes_with_the_last_bytes")}
 	w := &vSink{}
 	var r io.ReadCloser
 	var second *vSrc
-	switch zzverif.Choose("wrapper", 3) {
+	wrapper := zzverif.Choose("wrapper", 3)
+	switch wrapper {
 	case 0:
 		slack := zzverif.Int64("slack")
 		zzverif.Assume(slack >= 0)
@@ -51,8 +53,8 @@ func VerifStreamErrors() {
 	zzverif.Assert(err != io.EOF, "failing_source_never_looks_complete")
 	zzverif.Assert(errors.Is(err, vErrSrc), "source_error_surfaces")
 	zzverif.Assert(len(out) == at && zzverif.EqBytes(out, d[:at]), "bytes_in_front_of_the_failure_delivered_exactly")
-	if second == nil && w != nil && len(w.got) > 0 {
-		zzverif.Assert(zzverif.EqBytes(w.got, out), "tee_writer_got_exactly_the_delivered_bytes")
+	if wrapper == 2 {
+		zzverif.Assert(len(w.got) == len(out) && zzverif.EqBytes(w.got, out), "tee_writer_got_exactly_the_delivered_bytes")
 	}
 	r.Close()
 	zzverif.Assert(s.closes == 1, "failing_source_closed_exactly_once_after_close")
